@@ -103,6 +103,9 @@ pub struct Case {
     /// simulated seconds the message rests before delivery
     #[serde(default)]
     pub hold_s: i64,
+    /// JSON envelope spelled with legal \uXXXX escapes inside its strings (same document)
+    #[serde(default)]
+    pub escapes: bool,
 }
 
 fn kb_absent() -> KbEnc {
@@ -447,6 +450,7 @@ impl<'a> Exec<'a> {
         // 4. cases
         if scn.check == "C10" || scn.check == "C07" {
             self.holder_side_c10();
+            self.holder_side_c10_histories();
             self.holder_side_c10_faulted();
         }
         for (idx, case) in scn.cases.iter().enumerate() {
@@ -732,7 +736,7 @@ impl<'a> Exec<'a> {
         // an unfaulted message travelling in the format it was produced in is delivered verbatim
         // (byte for byte what the issuer / holder returned), not re-serialised by the gateway
         let verbatim = match (self.raw_of(&case.base), self.base_msg(&case.base)) {
-            (Some((raw, native)), Some((b, _, _))) if native == fmt && &b == m && case.extra.is_empty() && case.kb_enc == KbEnc::Absent => Some(raw),
+            (Some((raw, native)), Some((b, _, _))) if native == fmt && &b == m && case.extra.is_empty() && case.kb_enc == KbEnc::Absent && !case.escapes => Some(raw),
             _ => None,
         };
         if verbatim.is_some() {
@@ -753,6 +757,13 @@ impl<'a> Exec<'a> {
                 m.to_json(case.kb_enc, &case.extra)
             }
         };
+        if case.escapes && fmt == Fmt::Json {
+            let e = json_with_escapes(&s);
+            if e != s {
+                self.rep.count("fault.json_string_escapes");
+            }
+            s = e;
+        }
         for wf in &case.wire {
             let n = faults::apply_wire(wf, &s);
             if n != s {
@@ -1335,6 +1346,63 @@ impl<'a> Exec<'a> {
         }
     }
 
+    /// C10, holder side, histories: one long-lived holder per form serves the same sequence of
+    /// requests; step by step they must present the same JWT, the same disclosure list and a KB-JWT
+    /// in the same cases.
+    fn holder_side_c10_histories(&mut self) {
+        let scn = self.scn;
+        if scn.check != "C10" {
+            return;
+        }
+        let mut by_cred: BTreeMap<usize, Vec<(usize, &Map<String, Value>, &Option<KbArgs>)>> = BTreeMap::new();
+        for (pi, p) in scn.pres.iter().enumerate() {
+            if let PresSpec::Holder { cred, selection, kb } = p {
+                by_cred.entry(*cred).or_default().push((pi, selection, kb));
+            }
+        }
+        for (cred, reqs) in by_cred {
+            if reqs.len() < 2 {
+                continue;
+            }
+            let Some(c) = self.creds.get(cred) else { continue };
+            let (Some(m), Some(w1), cfmt) = (c.msg.clone(), c.wire.clone(), c.fmt) else { continue };
+            if !m.transcodable() {
+                continue;
+            }
+            let Some(w2) = m.serialize(cfmt.other()) else { continue };
+            let (h1, h2) = (self.w.holder_new(self.n_holder, &w1, cfmt), self.w.holder_new(self.n_holder, &w2, cfmt.other()));
+            let (Out::Ok(h1), Out::Ok(h2)) = (h1, h2) else { continue };
+            for (step, (pi, sel, kb)) in reqs.iter().enumerate() {
+                let o1 = self.w.present(self.n_holder, &h1, sel, kb.as_ref());
+                let o2 = self.w.present(self.n_holder, &h2, sel, kb.as_ref());
+                if o1.is_panic() || o2.is_panic() {
+                    break;
+                }
+                self.rep.evaluations += 1;
+                self.rep.count("oracle.c10.holder_history_step_compared");
+                let (a, b) = (o1.ok().and_then(|s| Message::parse(s, cfmt)), o2.ok().and_then(|s| Message::parse(s, cfmt.other())));
+                let why = match (&a, &b) {
+                    (Some(a), Some(b)) => {
+                        if a.jwt() != b.jwt() || a.disclosures != b.disclosures {
+                            Some("long-lived holders of the two forms present different disclosures at the same step")
+                        } else if a.kb.is_some() != b.kb.is_some() {
+                            Some("long-lived holders of the two forms differ in whether a KB-JWT is attached")
+                        } else {
+                            None
+                        }
+                    }
+                    (None, None) => None,
+                    _ => Some("one long-lived holder presents, the other refuses, at the same step"),
+                };
+                if let Some(why) = why {
+                    self.push_c10_holder(*pi, why, json!({"step": step, "native_form": cfmt.name(), "native": o1.describe(), "other": o2.describe(),
+                        "native_kb": a.as_ref().map(|m| m.kb.is_some()), "other_kb": b.as_ref().map(|m| m.kb.is_some())}));
+                    break;
+                }
+            }
+        }
+    }
+
     /// C10, holder side, tampered variants: the final message of a fault case, expressed in both
     /// forms, is handed to two fresh real holders with the same selection; they must behave alike
     /// (both refuse, or both present the same issuer-signed JWT and disclosure list).
@@ -1433,6 +1501,38 @@ impl<'a> Exec<'a> {
         let scenario = self.reduced_scenario(&Base::Pres(pi), None);
         self.rep.violations.push(Violation { property: "C10".into(), clause: "holders-agree".into(), signature: sig, trigger: BTreeMap::new(), detail: json!({"why": why, "detail": detail}), scenario });
     }
+}
+
+/// The same JSON document with some characters inside string literals written as \uXXXX.
+pub fn json_with_escapes(txt: &str) -> String {
+    let mut out = String::with_capacity(txt.len() + 64);
+    let (mut in_str, mut esc, mut k) = (false, false, 0usize);
+    for c in txt.chars() {
+        if in_str {
+            if esc {
+                esc = false;
+                out.push(c);
+            } else if c == '\\' {
+                esc = true;
+                out.push(c);
+            } else if c == '"' {
+                in_str = false;
+                out.push(c);
+            } else if c.is_ascii() && (c == '_' || c == '-' || k % 37 == 5) {
+                out.push_str(&format!("\\u{:04x}", c as u32));
+                k += 1;
+            } else {
+                out.push(c);
+                k += 1;
+            }
+        } else {
+            if c == '"' {
+                in_str = true;
+            }
+            out.push(c);
+        }
+    }
+    out
 }
 
 fn sess_class(s: &Session) -> &'static str {
